@@ -13,5 +13,6 @@ FlagsTwo == [n \in Node |-> IF n \in {x, r2} THEN {"relay", "exit"} ELSE {"relay
 CandsTwo == [n \in Node |-> [relays |-> <<>>, exits |-> <<x, r2>>]]
 \* reachability probe (expected to be VIOLATED - non-vacuity): a circuit whose second hop is the retry candidate r2
 ProbeRetriedHop == \A n \in Node : \A c \in DOMAIN circ[n] : Len(circ[n][c].hops) < 2 \/ circ[n][c].hops[2].peer # r2
+FirstHopsTwo == [n \in Node |-> <<r1, r2>>]
 CandsSmall == [n \in Node |-> [relays |-> <<>>, exits |-> <<x>>]]
 =============================================================================
